@@ -59,6 +59,25 @@ def filterDeposits (res dest : Nat) : Store → List Dep → List Dep × Store :
 /-- RetryV1: every deposit of the retried transaction, whatever its resource and destination -/
 def retryV1 : Store → List Dep → List Dep × Store := filterBy (fun _ => true)
 
+/-- a retry request (RetryV2 event → RetryMessage): it is addressed to the chain the deposits were made on (the
+    event's source domain) and carries source, destination, block height and resource unchanged -/
+structure Request where
+  msgSource : Nat      -- the domain that saw the retry event
+  msgDest   : Nat      -- the chain that has to re-scan the block
+  src       : Nat
+  dst       : Nat
+  height    : Nat
+  res       : Nat
+deriving DecidableEq, Repr
+
+def retryV2 (listening src dst height res : Nat) : Request := ⟨listening, src, src, dst, height, res⟩
+
+/-- the request is the event's: routed to the source chain, fields unchanged -/
+def PRequest (src dst height res : Nat) (r : Request) : Prop :=
+  r.msgDest = src ∧ r.src = src ∧ r.dst = dst ∧ r.height = height ∧ r.res = res
+
+instance (a b c d : Nat) (r : Request) : Decidable (PRequest a b c d r) := by unfold PRequest; infer_instance
+
 /-- the confirmation guard of the EVM / BTC handlers (`latest > height + confirmations`; Substrate: conf = 0) -/
 def confirmed (latest height conf : Nat) : Bool := height + conf < latest
 
